@@ -250,17 +250,36 @@ func aggCase(r *hlib.Rng, s *hlib.Suite) {
 			}
 			switch kind {
 			case "int":
-				fn = pureI
+				fn = func(x []int) int {
+					v := pureI(x)
+					for i := range x { // the argument is a scratch copy: overwriting it must not reach any frame
+						x[i] = -12345
+					}
+					return v
+				}
 			case "float":
-				fn = pureF
+				fn = func(x []float64) float64 {
+					v := pureF(x)
+					for i := range x {
+						x[i] = -1.25
+					}
+					return v
+				}
 			case "bool":
-				fn = pureB
+				fn = func(x []bool) bool {
+					v := pureB(x)
+					for i := range x {
+						x[i] = !x[i]
+					}
+					return v
+				}
 			default:
 				fn = func(x []*string) *string {
 					// copy: the slice and the strings must not be kept
 					y := make([]*string, len(x))
 					for i, v := range x {
 						y[i] = cp(v)
+						x[i] = nil
 					}
 					return pureS(y)
 				}
